@@ -2,6 +2,7 @@ package rpc
 
 import (
 	"context"
+	"sync"
 
 	"capnproto.org/go/capnp/v3"
 	rpccp "capnproto.org/go/capnp/v3/std/capnp/rpc"
@@ -173,6 +174,9 @@ type embargo struct {
 	c      *capnp.Client
 	p      *capnp.ClientPromise
 	lifted chan struct{}
+
+	mu   sync.Mutex
+	down bool // Shutdown has been called: c is (about to be) released
 }
 
 // embargo creates a new embargoed client, stealing the reference.
@@ -206,7 +210,17 @@ func (c *Conn) findEmbargo(id embargoID) *embargo {
 // lift disembargoes the client.  It must be called only once.
 func (e *embargo) lift() {
 	close(e.lifted)
-	e.p.Fulfill(e.c)
+	// The embargoed client may have run out of references before the
+	// disembargo came back, in which case Shutdown has released (or is
+	// releasing) e.c: resolve with our own reference, or with nothing.
+	e.mu.Lock()
+	var c *capnp.Client
+	if !e.down {
+		c = e.c.AddRef()
+	}
+	e.mu.Unlock()
+	e.p.Fulfill(c)
+	c.Release()
 }
 
 func (e *embargo) Send(ctx context.Context, s capnp.Send) (*capnp.Answer, capnp.ReleaseFunc) {
@@ -233,6 +247,9 @@ func (e *embargo) Brand() capnp.Brand {
 }
 
 func (e *embargo) Shutdown() {
+	e.mu.Lock()
+	e.down = true
+	e.mu.Unlock()
 	e.c.Release()
 }
 
